@@ -22,15 +22,15 @@ func ToLibLoose(m Tx) *bt.Tx {
 			}
 		}
 		if !in.UnlockNil {
-			i.UnlockingScript = bscript.NewFromBytes(append([]byte{}, in.Unlock...))
+			i.UnlockingScript = bscript.NewFromBytes(Canary(in.Unlock))
 		}
 		if !in.PrevNil {
-			i.PreviousTxScript = bscript.NewFromBytes(append([]byte{}, in.PrevScript...))
+			i.PreviousTxScript = bscript.NewFromBytes(Canary(in.PrevScript))
 		}
 		tx.Inputs = append(tx.Inputs, i)
 	}
 	for _, o := range m.Out {
-		tx.Outputs = append(tx.Outputs, &bt.Output{Satoshis: o.Sats, LockingScript: bscript.NewFromBytes(append([]byte{}, o.Script...))})
+		tx.Outputs = append(tx.Outputs, &bt.Output{Satoshis: o.Sats, LockingScript: bscript.NewFromBytes(Canary(o.Script))})
 	}
 	return tx
 }
@@ -39,7 +39,11 @@ func ToLibLoose(m Tx) *bt.Tx {
 // object holds *now*) into a model; two snapshots are compared with SameSnapshot
 // to decide "the call left the transaction unchanged": same counts, same scalar
 // fields, same script bytes and the same nil-ness of every script pointer.
-func Snapshot(tx *bt.Tx) Tx { return FromLib(tx) }
+func Snapshot(tx *bt.Tx) Tx {
+	m := FromLib(tx)
+	m.Damage = CanaryDamage(tx)
+	return m
+}
 
 // SameSnapshot compares two snapshots exactly (nil-ness flags included).
 func SameSnapshot(a, b Tx) bool { return reflect.DeepEqual(a, b) }
@@ -53,6 +57,8 @@ func DiffSnapshot(a, b Tx) string {
 		return fmt.Sprintf("%x", h)
 	}
 	switch {
+	case a.Damage != b.Damage:
+		return b.Damage
 	case a.Version != b.Version:
 		return fmt.Sprintf("Version %d -> %d", a.Version, b.Version)
 	case a.LockTime != b.LockTime:
